@@ -470,6 +470,12 @@ class ClientSSM(SSM):
                 if _debug: ClientSSM._debug("    - all done sending request")
                 self.set_state(AWAIT_CONFIRMATION, self.apduTimeout)
 
+            # an ack for the last segment or beyond although not everything has
+            # been sent, a late copy from an earlier try
+            elif self.initialSequenceNumber + ((apdu.apduSeq - self.initialSequenceNumber) % 256) + 1 >= self.segmentCount:
+                if _debug: ClientSSM._debug("    - not sent yet")
+                self.restart_timer(self.segmentTimeout)
+
             # more segments to send, or the rest of the last window again
             else:
                 if _debug: ClientSSM._debug("    - more segments to send")
@@ -1130,6 +1136,12 @@ class ServerSSM(SSM):
             elif self.sentAllSegments and (self.initialSequenceNumber + ((apdu.apduSeq - self.initialSequenceNumber) % 256) == self.segmentCount - 1):
                 if _debug: ServerSSM._debug("    - all done sending response")
                 self.set_state(COMPLETED)
+
+            # an ack for the last segment or beyond although not everything has
+            # been sent, a late copy from an earlier transaction
+            elif self.initialSequenceNumber + ((apdu.apduSeq - self.initialSequenceNumber) % 256) + 1 >= self.segmentCount:
+                if _debug: ServerSSM._debug("    - not sent yet")
+                self.restart_timer(self.segmentTimeout)
 
             else:
                 if _debug: ServerSSM._debug("    - more segments to send")
